@@ -56,21 +56,35 @@ impl IndexEntry {
 //@@ type src/backup.rs | struct FileCombiner
 //@@ end
 
-// A recorded file entry is right: every address lies inside a stored block (C13, C03-O1), the addressed bytes
+// A recorded file entry is right: every address lies inside a stored block (C13, C03-O1); the addressed bytes
 // are exactly the bytes read for that path (C01/C04), the lengths sum to that size and only files carry
 // addresses (C13).
-spec fn recorded_ok(e: IndexEntry) -> bool {
-    &&& addrs_valid(e.addrs@)
+spec fn content_ok(e: IndexEntry) -> bool {
     &&& content_of(e.addrs@) == src_bytes(e.apath@)
     &&& total_len(e.addrs@) == src_bytes(e.apath@).len()
     &&& e.kind == Kind::File
 }
 
-// A queued file: its bytes sit at [start, start+len) of the combine buffer.
+spec fn recorded_ok(e: IndexEntry) -> bool {
+    &&& addrs_valid(e.addrs@)
+    &&& content_ok(e)
+}
+
+spec fn all_in_block(es: Seq<IndexEntry>) -> bool {
+    forall|i: int| 0 <= i < es.len() ==> addrs_valid((#[trigger] es[i]).addrs@)
+}
+
+spec fn all_content_ok(es: Seq<IndexEntry>) -> bool {
+    forall|i: int| 0 <= i < es.len() ==> content_ok(#[trigger] es[i])
+}
+
+// A queued file: its bytes sit at [start, start+len) of the combine buffer (stated pointwise:
+// buf[start .. start+len] == src_bytes(path)).
 spec fn queued_ok(q: QueuedFile, buf: Seq<u8>) -> bool {
     &&& q.len > 0
     &&& q.start + q.len <= buf.len()
-    &&& buf.subrange(q.start as int, q.start + q.len) == src_bytes(q.entry.apath@)
+    &&& src_bytes(q.entry.apath@).len() == q.len
+    &&& forall|k: int| 0 <= k < q.len ==> buf[q.start + k] == #[trigger] src_bytes(q.entry.apath@)[k]
     &&& q.entry.addrs@.len() == 0
     &&& q.entry.kind == Kind::File
 }
@@ -92,20 +106,93 @@ spec fn flush_post(fin0: Seq<IndexEntry>, queue0: Seq<QueuedFile>, buf0: Seq<u8>
     &&& forall|i: int| 0 <= i < queue0.len() ==> flushed_from(#[trigger] fin1[fin0.len() + i], queue0[i], buf0)
 }
 
+// the paths of the files a combiner holds: recorded ones first, then queued ones
+spec fn entry_paths(es: Seq<IndexEntry>) -> Seq<Seq<char>> {
+    Seq::new(es.len(), |i: int| es[i].apath@)
+}
+
+spec fn queue_paths(qs: Seq<QueuedFile>) -> Seq<Seq<char>> {
+    Seq::new(qs.len(), |i: int| qs[i].entry.apath@)
+}
+
+spec fn held(fin: Seq<IndexEntry>, qs: Seq<QueuedFile>) -> vstd::multiset::Multiset<Seq<char>> {
+    (entry_paths(fin) + queue_paths(qs)).to_multiset()
+}
+
+proof fn lemma_held_push_finished(fin: Seq<IndexEntry>, qs: Seq<QueuedFile>, e: IndexEntry)
+    ensures held(fin.push(e), qs) == held(fin, qs).insert(e.apath@),
+{
+    let a = entry_paths(fin);
+    let q = queue_paths(qs);
+    assert(entry_paths(fin.push(e)) =~= a.push(e.apath@));
+    vstd::seq_lib::lemma_multiset_commutative(a.push(e.apath@), q);
+    vstd::seq_lib::lemma_multiset_commutative(a, q);
+    a.to_multiset_ensures();
+    assert(held(fin.push(e), qs) =~= held(fin, qs).insert(e.apath@));
+}
+
+proof fn lemma_held_push_queue(fin: Seq<IndexEntry>, qs: Seq<QueuedFile>, x: QueuedFile)
+    ensures held(fin, qs.push(x)) == held(fin, qs).insert(x.entry.apath@),
+{
+    let a = entry_paths(fin);
+    let q = queue_paths(qs);
+    assert(a + queue_paths(qs.push(x)) =~= (a + q).push(x.entry.apath@));
+    (a + q).to_multiset_ensures();
+}
+
+proof fn lemma_flush_keeps_paths(fin0: Seq<IndexEntry>, queue0: Seq<QueuedFile>, buf0: Seq<u8>, fin1: Seq<IndexEntry>)
+    requires
+        flush_post(fin0, queue0, buf0, fin1),
+    ensures
+        entry_paths(fin1) + queue_paths(Seq::empty()) == entry_paths(fin0) + queue_paths(queue0),
+        held(fin1, Seq::empty()) == held(fin0, queue0),
+{
+    let l = entry_paths(fin1) + queue_paths(Seq::empty());
+    let r = entry_paths(fin0) + queue_paths(queue0);
+    assert(l.len() == r.len());
+    assert forall|i: int| 0 <= i < l.len() implies l[i] == r[i] by {
+        if i < fin0.len() {
+            assert(fin1.take(fin0.len() as int)[i] == fin1[i]);
+        } else {
+            let j = i - fin0.len();
+            assert(flushed_from(fin1[fin0.len() + j], queue0[j], buf0));
+        }
+    }
+    assert(l =~= r);
+}
+
 impl FileCombiner {
-    // everything except the size bound (flush is entered with a buffer that has reached max_block_size)
-    spec fn wf_core(&self) -> bool {
+    // the files this combiner is responsible for: a successful push adds one, flush and drain lose none
+    // (a multiset: an empty file goes straight to `finished`, ahead of the files still queued)
+    spec fn held_paths(&self) -> vstd::multiset::Multiset<Seq<char>> {
+        held(self.finished@, self.queue@)
+    }
+
+    // every queued file's bytes sit where its queue entry says; entries are in order and disjoint
+    spec fn wf_queue(&self) -> bool {
         &&& forall|i: int| 0 <= i < self.queue@.len() ==> queued_ok(#[trigger] self.queue@[i], self.buf@)
         &&& forall|i: int, j: int| 0 <= i < j < self.queue@.len() ==>
                 (#[trigger] self.queue@[i]).start + self.queue@[i].len <= (#[trigger] self.queue@[j]).start
-        &&& forall|i: int| 0 <= i < self.finished@.len() ==> recorded_ok(#[trigger] self.finished@[i])
+    }
+
+    // everything except the size bound (flush is entered with a buffer that has reached max_block_size)
+    spec fn wf_core(&self) -> bool {
+        &&& self.wf_queue()
+        &&& all_in_block(self.finished@)
+        &&& all_content_ok(self.finished@)
         &&& (self.queue@.len() == 0 ==> self.buf@.len() == 0)
     }
 
-    // between calls the buffer is below max_block_size (or empty): it overruns by at most one small file
+    // nothing queued => nothing buffered; between calls the buffer is below max_block_size (or empty): a
+    // combined block overruns max_block_size by at most one small file
+    spec fn wf_buf(&self) -> bool {
+        &&& (self.queue@.len() == 0 ==> self.buf@.len() == 0)
+        &&& (self.buf@.len() == 0 || self.buf@.len() < self.max_block_size)
+    }
+
     spec fn wf(&self) -> bool {
         &&& self.wf_core()
-        &&& (self.buf@.len() == 0 || self.buf@.len() < self.max_block_size)
+        &&& self.wf_buf()
     }
 }
 
@@ -118,6 +205,7 @@ proof fn lemma_single_addr(a: Address, buf: Seq<u8>)
         a.start + a.len <= buf.len(),
     ensures
         a.in_block(),
+        blen(a.hash@) == buf.len(),
         a.slice() == buf.subrange(a.start as int, a.start + a.len),
         content_of(seq![a]) == a.slice(),
         total_len(seq![a]) == a.len,
